@@ -8,10 +8,11 @@ Driver requests for C13 (values built programmatically).
   value  := n | (b t|f) | (i <decimal>) | (f <hex repr>) | (s <hex>) | (l value…) | (d (<hexkey> value)…)
   ctx    := (fromdict d) | (values d) | (binding <hexkey> value) | (list (l …)) | (setitem d <hexkey> value)
             | (setitemon d <t|f multiline> <hexkey> value)
-  (value <indent> <t|f inline> ctx)  -> (ok <hex-text> <read> <inDomain> <readable> <avoids>)   read := none | (some data)
+  (value <indent> <t|f inline> ctx)  -> (ok <hex-text> <read> <inDomain> <readable> <mustRefuse>)   read := none | (some data)
+                                      | (err <class> <inDomain> <readable> <mustRefuse>)           (the rebuild raises)
   (readdata <hex-text>)              -> none | (some data)
   (readbinding <hex-text>)           -> none | (some <hexkey> data)
-  data   := null | (b t|f) | (i n) | (f <t|f neg> <hex tok>) | (s <hex>) | (l data…) | (a (<hexkey> data)…)
+  data   := null | (b t|f) | (i n) | (f <t|f neg> <hex "<mant>e<exp>">) | (s <hex>) | (l data…) | (a (<hexkey> data)…)
 -/
 namespace Nima.Drv.Value
 open Nima
@@ -44,7 +45,7 @@ partial def encData : Data → SExp
   | .null => .atom "null"
   | .bool b => .list [.atom "b", sBool b]
   | .int i => .list [.atom "i", .atom (toString i)]
-  | .float neg t => .list [.atom "f", sBool neg, sText t]
+  | .float neg v => .list [.atom "f", sBool neg, sText (toString v.mant ++ "e" ++ toString v.exp).toList]
   | .str s => .list [.atom "s", sText s]
   | .list xs => .list (.atom "l" :: xs.map encData)
   | .attrs kvs => .list (.atom "a" :: kvs.map fun kv => .list [sText kv.1, encData kv.2])
@@ -76,29 +77,33 @@ def decCtx : SExp → Option Ctx
     pure (Ctx.setItemOn d (ml == "t") k v)
   | _ => none
 
-/-- text of a context rendered at (indent, inline) (`renderCtx` is the case `0, false`), and
+/-- text of a context rendered at (indent, inline) (`renderCtxText` is the case `0, false`), and
     whether it is a lone binding (read inside braces) -/
-def renderAt (indent : Nat) (inline : Bool) : Ctx → Text × Bool
-  | .fromDict d => (renderExpr (fromDict d) indent inline, false)
-  | .values d => (renderExpr (valuesCtor d) indent inline, false)
+def renderTextAt (indent : Nat) (inline : Bool) : Ctx → Text × Bool
   | .binding k v => (renderBinding k (bindValue v) indent inline, true)
-  | .list xs => (renderElem (.list xs) indent inline, false)
-  | .setItem d k v => (renderExpr (setItem (fromDict d) k v) indent inline, false)
-  | .setItemOn d ml k v => (renderExpr (setItem (.aset (bindAll d) ml) k v) indent inline, false)
+  | c => (renderExpr (ctxExpr c) indent inline, false)
+
+/-- `rebuild(indent, inline)` of a context (`renderCtx` is the case `0, false`): the refusal does not
+    depend on the layout arguments -/
+def renderAt (indent : Nat) (inline : Bool) (c : Ctx) : Except Err (Text × Bool) :=
+  if exprRefused (ctxExpr c) then .error .value else .ok (renderTextAt indent inline c)
 
 def handle' (req : SExp) : SExp :=
   match req with
   | .list [.atom "value", .atom ind, .atom inl, ctx] =>
     match ind.toNat?, decCtx ctx with
     | some i, some c =>
-      let (t, isBinding) := renderAt i (inl == "t") c
-      let rd : SExp :=
-        if isBinding then
-          match readBinding t with
-          | some (k, d) => .list [.atom "some", .list [.atom "a", .list [sText k, encData d]]]
-          | none => .atom "none"
-        else encRead (readData t)
-      .list [.atom "ok", sText t, rd, sBool (ctxInDomain c), sBool (ctxReadable c), sBool (ctxAvoids c)]
+      let flags := [sBool (ctxInDomain c), sBool (ctxReadable c), sBool (dataOutOfRange (expected c))]
+      match renderAt i (inl == "t") c with
+      | .error e => .list ([.atom "err", .atom e.cls] ++ flags)
+      | .ok (t, isBinding) =>
+        let rd : SExp :=
+          if isBinding then
+            match readBinding t with
+            | some (k, d) => .list [.atom "some", .list [.atom "a", .list [sText k, encData d]]]
+            | none => .atom "none"
+          else encRead (readData t)
+        .list ([.atom "ok", sText t, rd] ++ flags)
     | _, _ => .list [.atom "bad-arg"]
   | .list [.atom "readdata", .atom h] =>
     match decText h with
